@@ -455,6 +455,8 @@ func (u *Unit) checkFrame(st *State, site int, env *SpecEnv) {
 		// no modifies clause: callers assume "modifies nothing"; check exactly that.
 	}
 	allowAll := false
+	var objAllowed []string
+	var objAllowedT []types.Type
 	allowed := map[string][]string{} // heap -> refs ("" in list = whole)
 	envOld := &SpecEnv{names: u.entryParams, pkg: u.pkg, what: u.name + " modifies"}
 	for _, it := range u.resolveModifies(st.old, u.ct, envOld) {
@@ -463,6 +465,10 @@ func (u *Unit) checkFrame(st *State, site int, env *SpecEnv) {
 		}
 		if it.heap != "" {
 			allowed[it.heap] = append(allowed[it.heap], it.ref)
+		}
+		if it.obj != "" {
+			objAllowed = append(objAllowed, it.obj)
+			objAllowedT = append(objAllowedT, it.objT)
 		}
 	}
 	gAllowed := map[string]bool{}
@@ -513,6 +519,13 @@ func (u *Unit) checkFrame(st *State, site int, env *SpecEnv) {
 		var excl []string
 		for _, a := range refs {
 			excl = append(excl, app("distinct", r, a))
+		}
+		if strings.HasPrefix(h, "H!") {
+			for i, a := range objAllowed {
+				if mayOwn(h, objAllowedT[i]) && u.eng.methodMayWrite(h) {
+					excl = append(excl, app("distinct", r, a))
+				}
+			}
 		}
 		// objects allocated during the call are not part of the caller-visible frame
 		cond := tAnd(append(excl, app("<=", r, st.old.wm), app("<=", "0", r))...)
